@@ -13,7 +13,7 @@ import ast
 
 from ..core.inline import expand_helpers
 
-from ..core.astutil import u, call_name, calls, iter_stmts, const, parent_map, ncmp, dot_args, index_elts
+from ..core.astutil import u, call_name, calls, iter_stmts, const, parent_map, ncmp, dot_args, index_elts, guard_chain
 from ..core.index import AnalysisError
 
 J = "distance3d.gjk._gjk_jolt"
@@ -312,14 +312,29 @@ def r_solverdispatch(idx, rep, rule="R-SOLVERDISPATCH"):
                           "the %d-point case must call %s(%s)" % (k, want[k], ", ".join("%s[%d]" % (Y, i) for i in range(k))))
                 seen.add(k)
     rep.check(seen == {1, 2, 3, 4}, rule, f.key + "|all sizes", f.where, "cases found: %s" % sorted(seen))
-    acc = [st for st in f.node.body if isinstance(st, ast.If) and ncmp(st.test) is not None and ncmp(st.test)[0] == "<"
-           and u(ncmp(st.test)[2]) == f.params()[2]]
-    ok = len(acc) == 1 and any(isinstance(s, ast.Return) and isinstance(s.value, ast.Tuple) and const(s.value.elts[0]) is True for s in acc[0].body)
+    # every `return True, ...` happens under `new squared length < previous squared length` — as an enclosing `if` or behind the guard clause
+    # `if not (new < prev): return False, ...` (the negated strict test keeps NaN on the failing side, like the original)
+    pm_f = parent_map(f.node)
+    succ = [st for st in ast.walk(f.node) if isinstance(st, ast.Return) and isinstance(st.value, ast.Tuple) and const(st.value.elts[0]) is True]
+    ok = bool(succ)
+    for r_ in succ:
+        atoms = guard_chain(pm_f, r_, f.node)
+        ok = ok and any(pol is True and ncmp(t_) is not None and ncmp(t_)[0] == "<" and u(ncmp(t_)[2]) == f.params()[2] for t_, pol in atoms)
     rep.check(ok, rule, f.key + "|accept iff strictly closer", f.where, "the new point must be accepted only under `v_len_sq < prev_v_len_sqr` (NaN-safe order)")
     # rejected point in the distance loop: all old bits
     d = idx.func(J + "::_distance_loop")
     fb = [st for st in ast.walk(d.node) if isinstance(st, ast.AugAssign) and isinstance(st.op, ast.BitOr) and "1 << " in u(st.value)]
-    rep.check(len(fb) == 1, rule, d.key + "|fallback mask keeps the old points", d.where, "fallback simplex mask `simplex |= 1 << i` over the old points not found")
+    ok_fb = len(fb) == 1
+    if not ok_fb:
+        # closed form: a mask expression that evaluates to the n lowest bits for n = 1..4
+        npar = [p_ for p_ in d.params() if p_.startswith("n_")]
+        for st in ast.walk(d.node):
+            if isinstance(st, ast.Assign) and len(st.targets) == 1 and isinstance(st.targets[0], ast.Name) and npar and isinstance(st.value, ast.BinOp):
+                vals = [eval_int(st.value, {npar[0]: k}) for k in (1, 2, 3, 4)]
+                if vals == [1, 3, 7, 15]:
+                    ok_fb = True
+    rep.check(ok_fb, rule, d.key + "|fallback mask keeps the old points", d.where,
+              "fallback simplex mask over the old points (`simplex |= 1 << i` for i < n_points, or a closed form that gives the n lowest bits) not found")
 
 
 def r_weightrole(idx, rep, rule="R-WEIGHTROLE"):
